@@ -317,3 +317,34 @@ def p1_decode_worker(M):
         if f is not None and any(isinstance(n, ast.For) for n in ast.walk(f.node)):
             return f
     return None
+
+
+def octet_string_text_finding(w):
+    """cosem.Field: an octet string (tag 9) is a date-time struct or text, a visible string (tag 10) is text - nothing else may claim the octets first.
+    Returns None if fine, else text."""
+    from sa.consir import EnumVal, N, kinds
+    cos = w.module("cosem")
+    fld, dt = cos.env.get("Field"), cos.env.get("DateTime")
+    if not isinstance(fld, N) or not isinstance(dt, N):
+        return "anchor vanished: cosem.Field / cosem.DateTime"
+    sw = next((s_ for s_ in fld.a.get("subs", []) if isinstance(s_, N) and s_.kind == "Switch"), None)
+    if sw is None:
+        return "cosem.Field has no type switch"
+    for key, sub in sw.a["cases"].items():
+        if not isinstance(key, EnumVal) or key.value not in (9, 10):
+            continue
+        alts = sub.a["subs"] if sub.kind == "Select" else [sub]
+        for i, a in enumerate(alts):
+            if not isinstance(a, N):
+                continue
+            is_dt = a is dt or a.ident == dt.ident or (a.src == dt.src and a.kind == dt.kind)
+            ks = kinds(a)
+            is_text = ks == {"str"}
+            if key.value == 9 and is_dt and i == 0:
+                continue
+            if is_text and i == len(alts) - 1:
+                continue
+            what = a.src or a.name or a.kind
+            return (f"a COSEM {'octet' if key.value == 9 else 'visible'} string is offered to `{what}` (alternative #{i}) before it is taken as text: identification texts whose octets "
+                    "happen to fit that alternative are not stored verbatim")
+    return None
